@@ -138,8 +138,11 @@ func VerifC20Backup(h *verifh.H) {
 			}
 			_, err := hub.Dsm.UpdateDataset(from, &UpdateDatasetConfig{ID: to})
 			h.Assert(err == nil, "dataset renamed")
-		case 2: // the hub (and with it the backup manager) restarts
+		case 2: // the hub (and with it the backup manager) restarts, once or twice in a row
 			hub = hub.Restart()
+			if h.Param("delJob", 0) == 1 && h.Choice("twice", 2) == 1 {
+				hub = hub.Restart()
+			}
 			ds = hub.Dsm.GetDataset("d")
 			bm = vNewBackupManager(h, hub, location)
 		}
